@@ -183,6 +183,7 @@ class Interp:
         self.all_snaps = []
         self.use_old = False
         self.call_log = []
+        self._anchor = []          # innermost contract whose hint / lemma anchors apply (inherited by inlined same-module helpers)
 
     # =========================================================================================
     # name resolution
@@ -1192,6 +1193,17 @@ class Interp:
         if env is None:
             env = self.bind_args(finfo, args, kwargs, finfo.module)
         frame = Frame(finfo, finfo.module, env, contract=contract, closure=closure)
+        # hint / lemma anchors ("after:<name>") of the function under verification also fire in helpers of the same module that
+        # are executed inline (a loop body extracted into a helper keeps its proof hints); loop contracts are NOT inherited
+        inherited = self._anchor[-1] if self._anchor else None
+        if contract is not None:
+            eff = contract
+        elif inherited is not None and inherited[1] is finfo.module:
+            eff = inherited[0]
+        else:
+            eff = None
+        frame.anchor_contract = eff
+        self._anchor.append((eff, finfo.module) if eff is not None else None)
         self.depth += 1
         self.call_log.append(finfo.qual)
         try:
@@ -1202,6 +1214,7 @@ class Interp:
             return None
         finally:
             self.depth -= 1
+            self._anchor.pop()
 
     # =========================================================================================
     # statements
@@ -1215,7 +1228,7 @@ class Interp:
         if m is None:
             raise Unsupported("statement %s" % type(st).__name__)
         m(st, frame)
-        if frame.contract is not None:
+        if frame.contract is not None or getattr(frame, "anchor_contract", None) is not None:
             self.ctx.verifier.after_stmt(self, st, frame)
 
     def s_Pass(self, st, frame):
